@@ -34,6 +34,15 @@ func (t *tr2) expr(e ast.Expr, bs *[]bind) string {
 				return "true"
 			}
 			return "false"
+		case constant.String:
+			if isString(tv.Type) {
+				bsv := []byte(constant.StringVal(tv.Value))
+				parts := make([]string, len(bsv))
+				for i, b := range bsv {
+					parts[i] = strconv.Itoa(int(b))
+				}
+				return "[" + strings.Join(parts, "; ") + "]"
+			}
 		}
 	}
 	switch x := e.(type) {
@@ -86,7 +95,10 @@ func (t *tr2) identExpr(x *ast.Ident) string {
 		if _, ok := ptrStruct(ty); ok {
 			return "None"
 		}
-		if isSlice(ty) && isBytes(ty) {
+		if isBytePtr(ty) {
+			return "None"
+		}
+		if isSlice(ty) && (isBytes(ty) || isBoolList(ty)) {
 			return "[]"
 		}
 		t.fail(x, "nil of unsupported type %s", ty)
@@ -130,35 +142,37 @@ func (t *tr2) selector(x *ast.SelectorExpr, bs *[]bind) string {
 		t.fail(x, "unsupported selector %s", x.Sel.Name)
 		return "0"
 	}
-	if len(sel.Index()) != 1 {
-		t.fail(x, "promoted field %s unsupported", x.Sel.Name)
-		return "0"
-	}
 	base := t.expr(x.X, bs)
 	bt := t.info.TypeOf(x.X)
-	var nn *types.Named
-	if n, _, ok := namedStruct(bt); ok {
-		nn = n
-	} else if n, ok := ptrStruct(bt); ok {
-		nn = n
-		tmp := t.freshTmp()
-		*bs = append(*bs, bind{pat: tmp, rhs: "(go_deref " + base + ")"})
-		base = tmp
-	} else {
-		t.fail(x, "field of unsupported type %s", bt)
-		return "0"
+	out := base
+	cur := bt
+	for _, ix := range sel.Index() {
+		var nn *types.Named
+		if n, _, ok := namedStruct(cur); ok {
+			nn = n
+		} else if n, ok := ptrStruct(cur); ok {
+			nn = n
+			tmp := t.freshTmp()
+			*bs = append(*bs, bind{pat: tmp, rhs: "(go_deref " + out + ")"})
+			out = tmp
+		} else {
+			t.fail(x, "field of unsupported type %s", cur)
+			return "0"
+		}
+		if !t.typeOK(nn) {
+			t.fail(x, "struct %s belongs to a package that is not translated", nn)
+			return "0"
+		}
+		r := t.record(nn)
+		f := r.fields[ix]
+		if !f.ok {
+			t.fail(x, "field %s.%s has a type outside the subset", r.name, f.goName)
+			return "0"
+		}
+		out = "(" + t.q(r.mod, f.coq) + " " + out + ")"
+		cur = f.ty
 	}
-	if !t.typeOK(nn) {
-		t.fail(x, "struct %s belongs to a package that is not translated", nn)
-		return "0"
-	}
-	r := t.record(nn)
-	f := r.fields[sel.Index()[0]]
-	if !f.ok {
-		t.fail(x, "field %s.%s has a type outside the subset", r.name, f.goName)
-		return "0"
-	}
-	return "(" + t.q(r.mod, f.coq) + " " + base + ")"
+	return out
 }
 
 func (t *tr2) index(x *ast.IndexExpr, bs *[]bind) string {
@@ -324,6 +338,8 @@ func (t *tr2) binary(x *ast.BinaryExpr, bs *[]bind) string {
 			if isErrorType(ot) {
 				s = "(goerr_is_nil " + ov + ")"
 			} else if _, ok := ptrStruct(ot); ok {
+				s = "(go_is_nil " + ov + ")"
+			} else if isBytePtr(ot) {
 				s = "(go_is_nil " + ov + ")"
 			} else {
 				t.fail(x, "comparison with nil on unsupported type %s", ot)
@@ -511,7 +527,12 @@ func (t *tr2) call(x *ast.CallExpr, bs *[]bind) string {
 		if ok1 && ok2 {
 			return wrap(kd, t.expr(x.Args[0], bs))
 		}
-		if isBytes(dst) && isBytes(src) && types.Identical(dst.Underlying().(interface{ Elem() types.Type }).Elem().Underlying(), src.Underlying().(interface{ Elem() types.Type }).Elem().Underlying()) {
+		if (isString(dst) && isSlice(src) && isBytes(src) && elemKind(src) == (ikind{false, 8})) ||
+			(isString(src) && isSlice(dst) && isBytes(dst) && elemKind(dst) == (ikind{false, 8})) ||
+			(isString(src) && isString(dst)) {
+			return t.expr(x.Args[0], bs) // a copy of the same bytes
+		}
+		if !isString(dst) && !isString(src) && isBytes(dst) && isBytes(src) && types.Identical(dst.Underlying().(interface{ Elem() types.Type }).Elem().Underlying(), src.Underlying().(interface{ Elem() types.Type }).Elem().Underlying()) {
 			v := t.expr(x.Args[0], bs)
 			if ln, arr := isArray(dst); arr && isSlice(src) {
 				tmp := t.freshTmp()
@@ -568,8 +589,28 @@ func (t *tr2) call(x *ast.CallExpr, bs *[]bind) string {
 		t.fail(x, "sync/atomic method %s outside the subset (Load, Add, Store)", m)
 		return "0"
 	}
+	// unsafe.Slice(p, n) / unsafe.SliceData(s) on *byte
+	if f, ok := x.Fun.(*ast.SelectorExpr); ok {
+		if id, ok := f.X.(*ast.Ident); ok {
+			if pn, isPkg := t.info.Uses[id].(*types.PkgName); isPkg && pn.Imported().Path() == "unsafe" {
+				switch {
+				case f.Sel.Name == "Slice" && len(x.Args) == 2 && isBytePtr(t.info.TypeOf(x.Args[0])):
+					p := t.expr(x.Args[0], bs)
+					n := t.expr(x.Args[1], bs)
+					tmp := t.freshTmp()
+					*bs = append(*bs, bind{pat: tmp, rhs: "(go_unsafe_slice " + p + " " + n + ")"})
+					return tmp
+				case f.Sel.Name == "SliceData" && len(x.Args) == 1 && isSlice(t.info.TypeOf(x.Args[0])) && isBytes(t.info.TypeOf(x.Args[0])):
+					return "(go_slice_data " + t.expr(x.Args[0], bs) + ")"
+				}
+				t.fail(x, "unsafe.%s outside the subset (Slice / SliceData on bytes)", f.Sel.Name)
+				return "0"
+			}
+		}
+	}
 	var callee *types.Func
 	var recv ast.Expr
+	var recvPath []int
 	switch f := x.Fun.(type) {
 	case *ast.Ident:
 		callee, _ = t.info.Uses[f].(*types.Func)
@@ -578,6 +619,7 @@ func (t *tr2) call(x *ast.CallExpr, bs *[]bind) string {
 			if sel.Kind() == types.MethodVal {
 				callee, _ = sel.Obj().(*types.Func)
 				recv = f.X
+				recvPath = sel.Index()[:len(sel.Index())-1]
 			}
 		} else {
 			callee, _ = t.info.Uses[f.Sel].(*types.Func)
@@ -638,6 +680,29 @@ func (t *tr2) call(x *ast.CallExpr, bs *[]bind) string {
 	if recv != nil {
 		rv := t.expr(recv, bs)
 		rt := t.info.TypeOf(recv)
+		for _, ix := range recvPath { // promoted method: walk to the embedded field
+			var nn *types.Named
+			if n, _, ok := namedStruct(rt); ok {
+				nn = n
+			} else if n, ok := ptrStruct(rt); ok {
+				nn = n
+				tmp := t.freshTmp()
+				*bs = append(*bs, bind{pat: tmp, rhs: "(go_deref " + rv + ")"})
+				rv = tmp
+			}
+			if nn == nil || !t.typeOK(nn) {
+				t.fail(x, "promoted method through unsupported type %s", rt)
+				return "0"
+			}
+			r := t.record(nn)
+			f := r.fields[ix]
+			if !f.ok {
+				t.fail(x, "embedded field %s.%s has a type outside the subset", r.name, f.goName)
+				return "0"
+			}
+			rv = "(" + t.q(r.mod, f.coq) + " " + rv + ")"
+			rt = f.ty
+		}
 		_, wantPtr := sig.Recv().Type().Underlying().(*types.Pointer)
 		_, havePtr := rt.Underlying().(*types.Pointer)
 		switch {
@@ -730,6 +795,9 @@ func (t *tr2) builtin(name string, x *ast.CallExpr, bs *[]bind) string {
 	case "len":
 		if len(x.Args) == 1 && isBytes(t.info.TypeOf(x.Args[0])) {
 			return "(go_len " + t.expr(x.Args[0], bs) + ")"
+		}
+		if len(x.Args) == 1 && isBoolList(t.info.TypeOf(x.Args[0])) {
+			return "(Z.of_nat (length " + t.expr(x.Args[0], bs) + "))"
 		}
 	case "append":
 		if len(x.Args) >= 1 && isSlice(t.info.TypeOf(x.Args[0])) && isBytes(t.info.TypeOf(x.Args[0])) {
